@@ -324,10 +324,14 @@ func runStorm(w *world, c *Storm, res *result) {
 				if n > 0 {
 					off = (g * n) / (c.Unregs + 1)
 				}
+				// paced so that the sweep (a few ms) overlaps the installation whenever it starts
 				for i := 0; i < n; i++ {
 					w.opUnregister(preRegs[(i+off)%n])
-					if i%16 == 0 {
-						jitter(r)
+					switch r.Intn(8) {
+					case 0:
+						time.Sleep(time.Duration(1+r.Intn(20)) * time.Microsecond)
+					case 1, 2:
+						runtime.Gosched()
 					}
 				}
 				return
